@@ -54,6 +54,10 @@ def _reader_class(repo, rule):
     methods = [f for f in pf.module.funcs.values() if f.cls == pf.cls and f.parent is None] if hasattr(pf, "parent") else []
     if not methods:
         methods = [f for f in repo.all_funcs() if f.module is pf.module and f.cls == pf.cls]
+    from ..core import inline_object_aliases
+
+    # `handle = self.file; handle.seek(o)` is an operation on self.file
+    methods = [inline_object_aliases(f) if not same_func(f, pf) else f for f in methods]
     return pf, methods
 
 
